@@ -13,7 +13,7 @@ CONSTANTS
   FixDiskRoot = TRUE
   FixDropByChain = TRUE
   Bug = "none"
-  MBTLen = 170
+  MBTLen = 150
   Deep = TRUE
 INIT MBTInit
 NEXT MBTNext
